@@ -12,7 +12,7 @@ from collections import deque
 
 import numpy as np
 
-from .. import alpha, core, gutil, lib, ref
+from .. import alpha, core, gutil, lib, numapi, ref
 from ..gutil import close, key_of, maxabs, rep_tag
 
 LEVEL = "model_checking"
@@ -66,6 +66,9 @@ def explore_config(case):
     xs = alpha.elements(AL, seed, small=True)
     xs = alpha.reduced(xs, (40 if tier == "thorough" else 24) if not is_dp else 12)
 
+    # ---------------- direct numeric use of the API, object reuse, argument mutation (see numapi) -------
+    numapi.check_group(res, B, [e["p"] for e in alpha.reduced(elems, 16 if not is_dp else 8)], [x["p"] for x in alpha.reduced(xs, 16 if not is_dp else 8)],
+                       case, "config", ("Ad", "ad", "bracket"))
     # ---------------- shapes ---------------------------------------------------------------------
     if ok_("Ad"):
         A0 = B.call("Ad", elems[0]["p"])
